@@ -836,6 +836,8 @@ func (c *Ctx) rulePair(rule string) {
 						}
 						if has {
 							c.R.Ok(rule, k, c.M.InstrPos(in), "removal from the pending table", "dominated by `result != nil` of the entry: the waiter removes its own, completed entry")
+						} else if c.ownUnstartedEntry(b, ro) {
+							c.R.Ok(rule, k, c.M.InstrPos(in), "removal from the pending table", "on this path the call inserted the entry itself (the inserting function returned no error) and the write of the work start failed: the peer never heard of the run, no result can arrive for it")
 						} else {
 							c.R.Bad(rule, k, c.M.InstrPos(in), "pending entry removed although its result may not have arrived",
 								"the result for this run ID will find no entry and be dropped; the Execute call that registered it waits forever")
@@ -2135,4 +2137,219 @@ func (c *Ctx) mutexGuardsNoState(target *types.Named, mutex string) bool {
 		}
 	}
 	return true
+}
+
+// ownUnstartedEntry: the block is dominated by (1) the nil-error outcome of a call to the function that inserts into
+// the pending table and (2) the non-nil-error outcome of a call that (transitively) writes to the connection's encoder.
+func (c *Ctx) ownUnstartedEntry(b *ssa.BasicBlock, ro *atpRoles) bool {
+	inserts := func(f *ssa.Function) bool {
+		for _, bb := range f.Blocks {
+			for _, in := range bb.Instrs {
+				if mu, ok := in.(*ssa.MapUpdate); ok && c.isFieldLoad(mu.Map, ro.clientT, ro.pending) {
+					return true
+				}
+			}
+		}
+		return false
+	}
+	encodes := func(f *ssa.Function) bool {
+		for g := range c.M.Reachable([]*ssa.Function{f}, nil) {
+			for _, bb := range g.Blocks {
+				for _, in := range bb.Instrs {
+					if call, ok := in.(*ssa.Call); ok && strings.HasSuffix(core.StaticCalleeName(&call.Call), "cbor/v2.Encoder).Encode") {
+						return true
+					}
+				}
+			}
+		}
+		return false
+	}
+	inserted, writeFailed := false, false
+	for _, cond := range core.CondsAt(b) {
+		x, neq, ok := core.NilCmp(cond.V)
+		if !ok {
+			continue
+		}
+		call, ok := core.Unwrap(x).(*ssa.Call)
+		if !ok {
+			continue
+		}
+		callee := call.Call.StaticCallee()
+		if callee == nil {
+			continue
+		}
+		isNil := neq != cond.True
+		if isNil && inserts(callee) {
+			inserted = true
+		}
+		if !isNil && encodes(callee) {
+			writeFailed = true
+		}
+	}
+	return inserted && writeFailed
+}
+
+// R-PAIR, insertion clause (C06 "Close returns", "no goroutine remains blocked"): an Execute that has put its entry
+// into the pending table must, on every path to a return, either wait for the result (the waiting function removes the
+// completed entry) or remove the entry itself. An entry that stays behind without a result keeps the read loop - and
+// Close, which waits for it - alive for ever.
+func (c *Ctx) rulePairInsert(rule string) {
+	ro := c.roles()
+	if !ro.ok {
+		return
+	}
+	deletes := func(f *ssa.Function) bool {
+		for _, bb := range f.Blocks {
+			for _, in := range bb.Instrs {
+				if ci, ok := in.(ssa.CallInstruction); ok {
+					if bi, ok := ci.Common().Value.(*ssa.Builtin); ok && bi.Name() == "delete" && c.isFieldLoad(ci.Common().Args[0], ro.clientT, ro.pending) {
+						return true
+					}
+				}
+			}
+		}
+		return false
+	}
+	inserts := func(f *ssa.Function) bool {
+		for _, bb := range f.Blocks {
+			for _, in := range bb.Instrs {
+				if mu, ok := in.(*ssa.MapUpdate); ok && c.isFieldLoad(mu.Map, ro.clientT, ro.pending) {
+					return true
+				}
+			}
+		}
+		return false
+	}
+	n := 0
+	for _, fn := range c.M.SortedFuncs(c.scopePkg("atp")) {
+		if !c.isMethodOf(fn, ro.clientT) {
+			continue
+		}
+		for _, b := range fn.Blocks {
+			for _, in := range b.Instrs {
+				call, ok := in.(*ssa.Call)
+				if !ok {
+					continue
+				}
+				callee := call.Call.StaticCallee()
+				if callee == nil || !inserts(callee) || len(b.Instrs) == 0 {
+					continue
+				}
+				// the branch on the insert's error
+				ifi, ok := b.Instrs[len(b.Instrs)-1].(*ssa.If)
+				if !ok {
+					continue
+				}
+				x, neq, ok := core.NilCmp(ifi.Cond)
+				if !ok || core.Unwrap(x) != ssa.Value(call) {
+					continue
+				}
+				success := b.Succs[1]
+				if !neq {
+					success = b.Succs[0]
+				}
+				n++
+				k := key(rule, c.M.Key(fn), "an inserted pending entry is awaited or removed on every path to a return")
+				cleans := func(bb *ssa.BasicBlock) bool {
+					for _, in2 := range bb.Instrs {
+						if ci, ok := in2.(ssa.CallInstruction); ok {
+							if bi, ok := ci.Common().Value.(*ssa.Builtin); ok && bi.Name() == "delete" && c.isFieldLoad(ci.Common().Args[0], ro.clientT, ro.pending) {
+								return true
+							}
+							if sc := ci.Common().StaticCallee(); sc != nil && deletes(sc) {
+								return true
+							}
+						}
+					}
+					return false
+				}
+				seen := map[*ssa.BasicBlock]bool{}
+				var leak *ssa.BasicBlock
+				var walk func(bb *ssa.BasicBlock)
+				walk = func(bb *ssa.BasicBlock) {
+					if seen[bb] || leak != nil || cleans(bb) {
+						return
+					}
+					seen[bb] = true
+					if len(bb.Instrs) > 0 {
+						if _, isRet := bb.Instrs[len(bb.Instrs)-1].(*ssa.Return); isRet {
+							leak = bb
+							return
+						}
+					}
+					for _, s := range bb.Succs {
+						walk(s)
+					}
+				}
+				walk(success)
+				if leak == nil {
+					c.R.Ok(rule, k, c.M.InstrPos(call), "insertion into the pending table", "every path from the successful insertion to a return passes the waiting function or a removal of the entry")
+				} else {
+					c.R.Bad(rule, k, c.M.Pos(leak.Instrs[len(leak.Instrs)-1].Pos()), "a return leaves the entry it inserted in the pending table without waiting for its result",
+						"the entry has no result and nobody waits for it: the read loop's idle test never succeeds again, so the loop - and Close, which waits for it - never ends (when the work start could not be written, no result will ever come)")
+				}
+			}
+		}
+	}
+	if n == 0 {
+		c.R.Unresolved(rule, "call that inserts into the client's pending table, followed by a branch on its error")
+	}
+}
+
+// R-CLIENTPANIC (C08 "the client never panics"): explicit panics in everything reachable from the client's methods.
+// Accepted: the environment abort in the constructor (a codec mode built from constant options), and the "woken without
+// a result" invariant after a condition wait, which R-PAIR's store => signal clause excludes. Everything else is a
+// violation: a failing peer or transport must surface as an error.
+func (c *Ctx) ruleClientPanic(rule string) {
+	ro := c.roles()
+	if !ro.ok {
+		return
+	}
+	var roots []*ssa.Function
+	for _, fn := range c.M.SortedFuncs(c.scopePkg("atp")) {
+		if c.isMethodOf(fn, ro.clientT) {
+			roots = append(roots, fn)
+		}
+	}
+	reach := c.M.Reachable(roots, func(f *ssa.Function) bool { return isRecoverScope(f) })
+	n := 0
+	for _, fn := range c.M.SortedFuncs(reach) {
+		if !c.scopePkg("atp")[fn] {
+			continue
+		}
+		cnt := 0
+		for _, b := range fn.Blocks {
+			for _, in := range b.Instrs {
+				p, ok := in.(*ssa.Panic)
+				if !ok || !p.Pos().IsValid() {
+					continue
+				}
+				n++
+				cnt++
+				k := key(rule, c.M.Key(fn), sprintf("panic#%d when %s", cnt, c.panicDesc(c.M, fn, p)))
+				afterWait := false
+				for _, cond := range core.CondsAt(b) {
+					if x, neq, ok := core.NilCmp(cond.V); ok && neq != cond.True && strings.HasSuffix(c.M.ValPath(x), ".result") {
+						// result == nil ... and a Wait that can come before it: the wait is what is supposed to end with a result
+						for _, d := range fn.Blocks {
+							for _, in2 := range d.Instrs {
+								if call, ok := in2.(*ssa.Call); ok && core.StaticCalleeName(&call.Call) == "(*sync.Cond).Wait" && (d == b || blockReaches(d, b, nil)) {
+									afterWait = true
+								}
+							}
+						}
+					}
+				}
+				switch {
+				case c.isEnvAbort(c.M, fn, p):
+					c.R.Add(core.Obligation{Rule: rule, Key: k, Pos: c.M.InstrPos(p), What: "explicit panic (environment abort)", Status: core.Info, How: "controlled by an error from constructing a codec mode out of constant options"})
+				case afterWait:
+					c.R.Ok(rule, k, c.M.InstrPos(p), "explicit panic (internal invariant)", "woken from the condition wait without a result: excluded by R-PAIR (a result is stored before its waiter is signalled) and Go's spurious-wake-up-free sync.Cond")
+				default:
+					c.R.Bad(rule, k, c.M.InstrPos(p), "the client panics on a condition that a failing peer or transport can bring about", "the engine process dies instead of getting an error from Execute / Close")
+				}
+			}
+		}
+	}
+	c.R.Note("%s: %d explicit panics reachable from the client's methods", rule, n)
 }
